@@ -134,8 +134,9 @@ def plan(tier):
     specs = []
     for mode in ("ack", "unack"):
         for imm in ((True, False) if mode == "ack" else (True,)):
-            specs.append(Spec(f"dest/{mode}/imm={imm}/N={n}", "vf.harness.c10:h_dest",
-                              {"N": n, "mode": mode, "imm": imm}, twin_share=0.05))
+            nn = n if (tier == "quick" or imm) else n - 1
+            specs.append(Spec(f"dest/{mode}/imm={imm}/N={nn}", "vf.harness.c10:h_dest",
+                              {"N": nn, "mode": mode, "imm": imm}, twin_share=0.05 if tier == "quick" else 0.01))
     # late steps, PDU arrival racing with timer expiry, limits 1 and 2
     for mode, pre in (("ack", "delivered"), ("ack", "eof_missing"), ("ack", "eof_first"), ("unack", "eof_missing")):
         for lim in (1, 2):
